@@ -173,6 +173,7 @@ func (r *RibTable) AddEncRoute(name enc.Name, route *Route) {
 	verifBeforeMLock(&r.mutex, "rib.lock")
 	r.mutex.Lock()
 	defer r.mutex.Unlock()
+	verifMutatingM(&r.mutex, "rib.mut")
 
 	name = name.Clone()
 	node := r.fillTreeToPrefixEnc(name)
@@ -200,6 +201,7 @@ func (r *RibTable) GetAllEntries() []*RibEntry {
 	verifBeforeMLock(&r.mutex, "rib.lock")
 	r.mutex.Lock()
 	defer r.mutex.Unlock()
+	verifMutatingM(&r.mutex, "rib.mut")
 
 	entries := make([]*RibEntry, 0)
 	// Walk tree in-order
@@ -231,6 +233,7 @@ func (r *RibTable) RemoveRouteEnc(name enc.Name, faceID uint64, origin uint64) {
 	verifBeforeMLock(&r.mutex, "rib.lock")
 	r.mutex.Lock()
 	defer r.mutex.Unlock()
+	verifMutatingM(&r.mutex, "rib.mut")
 
 	entry := r.findExactMatchEntryEnc(name)
 	if entry != nil {
@@ -254,6 +257,7 @@ func (r *RibTable) CleanUpFace(faceId uint64) {
 	verifBeforeMLock(&r.mutex, "rib.lock")
 	r.mutex.Lock()
 	defer r.mutex.Unlock()
+	verifMutatingM(&r.mutex, "rib.mut")
 
 	r.RibEntry.CleanUpFace(faceId)
 }
